@@ -201,6 +201,27 @@ func genCases(r *rand.Rand, n, perBase int, seen map[string]bool) []obs {
 	return cases
 }
 
+// structuredCases: the fixed enumeration (compound template x position x inserted token), every run, all of it
+func structuredCases(seen map[string]bool) []obs {
+	var cases []obs
+	add := func(ts []hxgram.Tok, base bool) {
+		src := hxgram.Render(ts)
+		if seen[src] {
+			return
+		}
+		seen[src] = true
+		cases = append(cases, obs{Toks: hxgram.Kinds(ts), Src: src, Base: base})
+	}
+	b, m := hxgram.StructuredCases()
+	for _, ts := range b {
+		add(ts, true)
+	}
+	for _, ts := range m {
+		add(ts, false)
+	}
+	return cases
+}
+
 const poolSeed = 20260922 // the pinned pool does not depend on VERIF_SEED
 
 func main() {
@@ -225,7 +246,9 @@ func main() {
 		return
 	case "pool":
 		// the whole pinned pool, every case live (thorough tier; also used to (re)build the oracle cache)
-		cases := genCases(hx.Rand(poolSeed, 12), o.N, 12, map[string]bool{})
+		seen := map[string]bool{}
+		cases := genCases(hx.Rand(poolSeed, 12), o.N, 12, seen)
+		cases = append(cases, structuredCases(seen)...)
 		runCases(cases, loadCache(arg("cache")), 1<<30, hx.Rand(o.Seed, 13))
 	case "gen":
 		// quick tier: a VERIF_SEED-chosen slice of the pinned pool (verdicts of bash/dash from the oracle
@@ -243,6 +266,7 @@ func main() {
 				cases = append(cases, pool[i])
 			}
 		}
+		cases = append(cases, structuredCases(seen)...)
 		fresh, _ := strconv.Atoi(arg("fresh"))
 		cases = append(cases, genCases(hx.Rand(o.Seed, 12), fresh, 8, seen)...)
 		recheck, _ := strconv.Atoi(arg("recheck"))
